@@ -9,9 +9,57 @@ ROOT = os.path.dirname(os.path.dirname(os.path.abspath(__file__)))
 # id -> (technique, level text, level note, design ref)
 CHECKS = {
     "C01": ("runtime reference-model monitor over an exhaustive calendar enumeration (every output path x every input path), independent ISO 8601/Gregorian model",
-            "Exploration: all 3,652,425 dates of years 0000-9999 x both layouts are executed through the real output and input paths and each observed text/date is compared online with an independent calendar model; 5-9 digit years are sampled under six MaxInputLength settings. Held-on-observed, exhaustive for the 4-digit-year sub-space only.",
+            "Exploration: all 3,652,425 dates of years 0000-9999 x both layouts are executed through the real output and input paths and each observed text/date is compared online with an independent calendar model; 5-9 digit years are sampled under six MaxInputLength settings; outputs are retained and re-read after later calls. Held-on-observed, exhaustive for the 4-digit-year sub-space only.",
             "Trusted: Go runtime, fmt, encoding/json, encoding/xml, the reference calendar in harness/ref/civil.go (cross-checked against package time for every ordinal at run time).",
             "DESIGN.md section 4 C01"),
+    "C02": ("runtime reference-model monitor, exhaustive over (n, flag set): formatter output vs independently constructed canonical numeral, then parse/validate back",
+            "Exploration: every n in [0,130000] x all 128 flag subsets executed (exhaustive for that space) plus marshal/String/verb paths under each of the 128 DefaultFormat values; each observed numeral and parsed value compared with an independent digit-construction model.",
+            "Trusted: Go runtime, fmt; canonical numerals from harness/ref/roman.go.",
+            "DESIGN.md section 4 C02"),
+    "C03": ("runtime reference-model monitor: exhaustive small-alphabet string enumeration + grammar-generated and mutated texts through 11 parser entry points, judged by an independent recursive-descent SemVer 2.0.0 recogniser with big.Int numerics",
+            "Exploration: tens of millions of texts (three exhaustive bounded families, generated versions biased to the 2^64 boundary, all single-byte mutations of valid texts) executed through every parser entry point; acceptance, fields, byte-for-byte re-formatting, typed zero-valued rejections and the Valid <=> round-trip link are checked online.",
+            "Trusted: Go runtime, math/big, the BNF recogniser in harness/ref/semver.go (self-tested on the semver.org valid/invalid example lists).",
+            "DESIGN.md section 4 C03"),
+    "C05": ("runtime reference-model monitor: exhaustive single-position sweeps (128 bits, 32 hex positions x 22 digit characters), all 256-value single-byte mutations of valid texts, random IDs; RFC 4122 layout model",
+            "Exploration: every output path and the parser under all four rule combinations are executed on exhaustive single-position sweeps and seeded IDs/mutations; each observed text, ID, error type and version/variant is compared with an independent layout model.",
+            "Trusted: Go runtime, fmt; harness/ref/uuid.go.",
+            "DESIGN.md section 4 C05"),
+    "C06": ("runtime reference-model monitor: all ordered pairs of a bounded universe of valid pre-release strings + boundary cores + long random identifier lists through 12 comparison entry points, judged by an independent SemVer section 11 comparator",
+            "Exploration: every ordered pair of U_3 (quick) / U_4 (thorough) through all entry points, U_4 pairs through the value comparators, millions of seeded long-identifier pairs; the documented departure (digit-suffix of alphanumeric identifiers) is counted as don't-care.",
+            "Trusted: Go runtime, math/big; comparator in harness/ref/semver.go (self-tested on the specification's example chain).",
+            "DESIGN.md section 4 C06"),
+    "C07": ("runtime reference-model monitor: exhaustive adjacent-pair sweep of the calendar + all pairs of a boundary set + Add/AddDuration/FromTime grids, judged on independent day ordinals",
+            "Exploration: all 3.65M adjacent/identical pairs, all ordered pairs of a ~1,900-date boundary set, Add over a (years, months, days) grid with overflowing values, AddDuration around multiples of 24h, FromTime/Scan over 53 fixed-offset zones near local and UTC midnight; every result compared with the day-ordinal model.",
+            "Trusted: Go runtime; package time only as carrier of inputs/results; harness/ref/civil.go.",
+            "DESIGN.md section 4 C07"),
+    "C09": ("runtime reference-model monitor: exhaustive (year, MM, DD, layout) grid x rule x limit configurations + exhaustive small-alphabet strings + all single-byte mutations, judged by an independent calendar recogniser",
+            "Exploration: 60 years x 10,000 month/day texts x 4 layouts x 8 configurations x 3 entry points, every string over {0,1,2,3,9,-} up to length 9/10, and mutations of valid texts; acceptance, components, typed zero-valued rejection and dedicated errors are checked online.",
+            "Trusted: Go runtime; harness/ref/civil.go (does not use package time).",
+            "DESIGN.md section 4 C09"),
+    "C10": ("runtime reference-model monitor: exhaustive enumeration of all strings over the seven letters up to length 7/8 in four case renderings + foreign-byte mutations, judged by an independent group-table evaluator",
+            "Exploration: every string over {I,V,X,L,C,D,M} up to the bound x 4 case variants x 5 entry points, all 256 byte substitutions and multi-byte look-alikes at each position of valid numerals, M-runs around the limit; membership, value, Valid==parser agreement and typed zero-valued rejection are checked online.",
+            "Trusted: Go runtime; harness/ref/roman.go (all splits tried, uniqueness asserted).",
+            "DESIGN.md section 4 C10"),
+    "C11": ("runtime reference-model monitor: exhaustive calendar round trip against an independent encoder + exhaustive (month byte, day byte) grids, version and length sweeps, random payloads",
+            "Exploration: all dates of years -400..9999 and seeded dates to +-999,999,999 (layout and round trip); for 12 years all 65,536 month/day byte pairs, all 256 version bytes, all lengths 0..16, random 7-byte payloads; a nil error must leave a real calendar date, an error must leave the receiver unchanged.",
+            "Trusted: Go runtime; independent encoder in the harness; harness/ref/civil.go.",
+            "DESIGN.md section 4 C11"),
+    "C13": ("runtime reference-model monitor: stratified + exhaustive-below-2^20 size set through Shorten and all renderings, judged with math/big shortening and an independent grouping routine",
+            "Exploration: all sizes below 2^20, odd x 2^k for every k, every decimal length, neighbours of 1024^k/1000^k, millions of seeded values x 4 format values and 5 rendering entry points; exactness, maximality and full string equality of the renderings are checked online.",
+            "Trusted: Go runtime, math/big, strconv; harness/ref/size.go.",
+            "DESIGN.md section 4 C13"),
+    "C14": ("runtime law monitor: order laws (range, reflexivity, antisymmetry, build independence, Latest, Next*, helper == parsed compare) over all ordered pairs of a bounded universe including mixed identifiers, boundary cores and seeded versions",
+            "Exploration: every ordered pair of the universe under 16 build-metadata combinations, seeded versions with full-range components (including components >= 2^63 apart), Next* at 0 / 2^64-2 / 2^64-1 in each position, six string helpers over a pool of valid and invalid texts.",
+            "Trusted: Go runtime; helper validity from harness/ref/semver.go; the laws need no external order.",
+            "DESIGN.md section 4 C14"),
+    "C15": ("runtime reference-model monitor: exhaustive (from, to, probe) triples over a boundary window x nil combinations + seeded triples, judged on day ordinals, with caller-variable mutation after construction",
+            "Exploration: all triples of a 50+ date window spanning day/month/year/leap boundaries x 4 nil combinations, a million seeded triples with near-bound probes; every filter is probed before and after the caller's variables are overwritten.",
+            "Trusted: Go runtime; harness/ref/civil.go.",
+            "DESIGN.md section 4 C15"),
+    "C16": ("runtime monitor on carved buffers: prefix/capacity/guard-byte snapshots around every formatter call, result compared with prefix ++ format(nil), earlier results re-read after later calls",
+            "Exploration: five formatters x boundary values x every flag subset x ~300 prefixes (every single byte, the formatter's own alphabet, seeded binary) x spare capacities 0..64; in-place edits, wrong results, writes past capacity and scratch-buffer aliasing are all observable.",
+            "Trusted: Go runtime; format(nil, ...) as reference for format(prefix, ...), itself checked by C01/C02/C05/C13.",
+            "DESIGN.md section 4 C16"),
 }
 
 NOT_CLAIMED = {}
